@@ -85,7 +85,19 @@ def case_handlers(prog, params):
     if params.get('ctype'):
         hs.append(('Content-Type', params['ctype']))
     st, req, sy = build_state(dict(p2, headers=hs), B)
-    if params.get('body_sym'):
+    if params.get('body_template') == 'multipart':
+        ex.fork_read_until = 6
+        # one well-framed part: the disposition value (structured prefix + 2 arbitrary printable bytes) and the part body (2 arbitrary
+        # bytes) are symbolic, the framing is concrete, so the controller's per-part code is reached
+        cons = []
+        ln_ = params.get('lens', (2, 2))
+        tail = SymStr.fresh('dtail', ln_[0], cons, exact_len=ln_[0], alphabet=[b for b in range(0x20, 0x7f) if b != 0x2d]) if ln_[0] else S('')
+        val = SymStr.fresh('pbody', ln_[1], cons, exact_len=ln_[1], alphabet=[b for b in range(256) if b != 0x2d]) if ln_[1] else S('')
+        disp = S(params['disp_prefix']).concat(tail)
+        bsym = S('--QQ\r\nContent-Disposition: ').concat(disp).concat(S('\r\n\r\n')).concat(val).concat(S('\r\n--QQ--\r\n'))
+        st.pc.extend(cons); sy['body'] = bsym
+        req = Struct('Request', req.fields[:4] + (bsym,))
+    elif params.get('body_sym'):
         cons = []
         bsym = SymStr.fresh('body', P['body_cap'], cons)
         st.pc.extend(cons); sy['body'] = bsym
@@ -159,6 +171,14 @@ def case_skeleton(prog, params):
             script = io_script(m, io, o)
             res['violations'].append({'key': panic_key(o, 'process'), 'text': '%s panics (%s at %s) with transport events %s' % (entry, o.outcome[1], o.outcome[2], shape),
                                       'witness': {'kind': 'skeleton', 'entry': entry, 'request': req.hex(), 'script': script, 'app': params['app']}})
+            return
+        if o.outcome[0] == 'stop' and o.outcome[1] == 'bound:unroll':
+            # a loop of the connection job is still running after the unroll bound on a feasible transport schedule (e.g. reads that
+            # keep returning Ok(0) at end of stream): candidate "the job never returns" -- decided by the native replay under a watchdog
+            r, m = ex.check(o.pc)
+            if r == 'sat':
+                res['violations'].append({'key': 'C04:job-does-not-return:%s' % entry, 'text': '%s is still looping after %d iterations (%s) with transport events %s' % (entry, ex.max_block_visits, o.outcome[2], shape[:12]),
+                                          'witness': {'kind': 'skeleton', 'entry': entry, 'request': req.hex(), 'script': io_script(m, io[:40], o), 'app': params['app'], 'expect': 'hang'}})
             return
         if o.outcome[0] == 'stop':
             if not o.outcome[1].startswith('domain:'): res['inconclusive'].append({'status': o.outcome[1], 'error': str(o.outcome[2])[:200]})
@@ -259,8 +279,10 @@ def replay_native(chk, v):
             return {'reproduced': st == 'panic', 'native': st, 'request': reqb.decode('latin1'), 'detail': out[0].decode('latin1')[:200] if out and st == 'panic' else ''}
         if w['kind'] == 'skeleton':
             reqb = bytes.fromhex(w['request'])
-            cmd = 'process' if w['entry'] == 'process' else 'process_request'
+            cmd = 'process' if w['entry'] in ('process', 'job') else 'process_request'
             st, out = chk.oracle.run([(cmd, [reqb, len(reqb)] + [(int(x) if x.isdigit() else H.Raw(x)) for x in w['script']])], cwd=root, env={'RWS_CONFIG_CORS_ALLOW_ALL': 'true'})[0]
+            if w.get('expect') == 'hang':
+                return {'reproduced': st == 'timeout', 'native': st}
             if 'expect_writes' in w:
                 nw = int(out[2]) if st == 'ok' else -1
                 return {'reproduced': st == 'ok' and nw != w['expect_writes'], 'native': st, 'writes': nw}
@@ -297,6 +319,10 @@ def main():
         for (m, target, ctype) in (('POST', '/form-url-encoded-enctype-post-method', 'application/x-www-form-urlencoded'), ('POST', '/form-multipart-enctype-post-method', 'multipart/form-data; boundary=b'),
                                    ('GET', '/form-get-method', None), ('POST', '/file-upload/initiate', None)):
             cases.append(dict(ob='handlers', entry=entry, method=m, fixed_target=target, tlen=len(target), ctype=ctype, body_sym=True, first=None, range='none'))
+    for entry in ('execute', 'legacy'):
+        for dp, ln_ in [(dp, ln_) for dp in ('form-data; name=', 'form-data', 'form-data; name=a; filename=', 'attachment; filename=', 'x; name=', '') for ln_ in ((2, 2), (0, 1))]:
+            t_ = '/form-multipart-enctype-post-method'
+            cases.append(dict(lens=ln_, ob='handlers', entry=entry, method='POST', fixed_target=t_, tlen=len(t_), ctype='multipart/form-data; boundary=QQ', body_template='multipart', disp_prefix=dp, first=None, range='none'))
     for entry in ('process', 'process_request'):
         for app in (('abstract', 'real') if entry == 'process' else ('real',)):
             for reqs in ('GET /a HTTP/1.1\r\nHost: x\r\n\r\n', 'GET / HTTP/1.1\r\n\r\n', 'BAD\r\n\r\n', 'GET /a HTTP/1.1\r\nRange: bytes=0-0\r\n\r\n'):
